@@ -183,7 +183,7 @@ VDRIVE_OP(trim)
 	// "premap": the optional out-map handed in already holds (identity) entries - e.g. one map reused over several calls;
 	// what it holds must not influence the automaton returned
 	auto premap = [&c](AutBase::StateToStateMap& m) {
-		if (c.contains("premap")) { for (const json& q : c["premap"]) { m.insert(std::make_pair(q.get<size_t>(), q.get<size_t>())); } }
+		if (c.contains("premap")) { for (const json& q : c["premap"]) { m.insert(std::make_pair(StIn(q.get<size_t>()), StIn(q.get<size_t>()))); } }
 	};
 	{
 		SetStage("RemoveUnreachableStates");
@@ -379,7 +379,8 @@ VDRIVE_OP(reindex)
 		}
 		else
 		{
-			TA d = MakeTA(c.at("D"), alpha);
+			// "dshare": the destination is a COPY of the source (same value as D = A, but sharing its transition storage)
+			TA d = c.value("dshare", false) ? TA(a) : MakeTA(c.at("D"), alpha);
 			SetStage("ReindexStates(dst)");
 			a.ReindexStates(d, f, addFinal);
 			res["R"] = ReadTA(d, alpha);
@@ -874,7 +875,12 @@ VDRIVE_OP(incluptrace)
 	g_stepSink = nullptr;
 	json res;
 	json evs = json::array();
-	for (const std::string& s : events) { evs.push_back(json::parse(s)); }
+	for (const std::string& s : events)
+	{
+		json e = json::parse(s);
+		if (e.contains("mode") || e.at("e") == "Ans") { continue; }      // events of sub-steps (trimming during operand preparation)
+		evs.push_back(e);
+	}
 	res["events"] = evs;
 	res["v"] = v;
 	return res;
@@ -909,6 +915,7 @@ VDRIVE_OP(trimtrace)
 			if (++starts > 1) { break; }
 			e["A"] = ReadTA(a, alpha);
 		}
+		if (e.contains("q")) { e["q"] = StOut(e["q"].get<size_t>()); }
 		evs.push_back(e);
 	}
 	json done;
@@ -964,5 +971,41 @@ VDRIVE_OP(isecttrace)
 	evs.push_back(done);
 	json res;
 	res["events"] = evs;
+	return res;
+}
+
+// ---------------------------------------------------------------- semantic binding of the downward inclusion's sub-answers
+// {"op":"incldowntrace","A","B","selidx":2..7}: runs a downward selection with the step hook installed; returns the operands as
+// the algorithm saw them (Start) and every answer a sub-call gave: (p, P, v, abs) = "L(p) inside the union of L(q), q in P" is
+// v; abs says the answer does not depend on pending hypotheses.  Symbols in the Start event are internal numbers (only their
+// identity matters here).
+VDRIVE_OP(incldowntrace)
+{
+	Alpha alpha;
+	if (c.contains("syms")) { alpha.RegisterAll(c["syms"]); }
+	TA a = MakeTA(c.at("A"), alpha);
+	TA b = MakeTA(c.at("B"), alpha);
+	size_t k = c.at("selidx").get<size_t>();
+	if (k < 2 || k > 7) { throw std::runtime_error("vdrive: incldowntrace needs a downward selection"); }
+	std::vector<std::string> events;
+	g_stepSink = &events;
+	VATA::Util::Verif::Sink() = stepSink;
+	json v;
+	try { v = runIncl(a, b, SELS[k]); }
+	catch (...) { VATA::Util::Verif::Sink() = nullptr; g_stepSink = nullptr; throw; }
+	VATA::Util::Verif::Sink() = nullptr;
+	g_stepSink = nullptr;
+	json res;
+	json answers = json::array();
+	bool started = false;
+	for (const std::string& s : events)
+	{
+		json e = json::parse(s);
+		if (e.at("e") == "Start") { if (!started && e.contains("A")) { res["SA"] = e.at("A"); res["SB"] = e.at("B"); started = true; } continue; }
+		if (e.at("e") == "Ans" && started) { answers.push_back(json::array({e.at("p"), e.at("P"), e.at("v").get<bool>() ? 1 : 0, e.at("abs").get<bool>() ? 1 : 0})); }
+	}
+	res["answers"] = answers;
+	res["sel"] = SELS[k].name;
+	res["v"] = v;
 	return res;
 }
